@@ -93,6 +93,16 @@ static bool aliased(const std::string& a, const std::string& b) {
     }
     return false;
 }
+static bool has_alias(const std::string& a) {
+    static const char* probe[] = {"IP.frag_off", "IP.fragment_offset", "IP.flags", "ICMP.id", "ICMP.sequence", "ICMP.gateway", "ICMP.mtu", "ICMP.pointer", "ICMP.original_timestamp", "ICMP.address_mask",
+        "ICMPv6.identifier", "ICMPv6.sequence", "ICMPv6.hop_limit", "ICMPv6.router", "ICMPv6.solicited", "ICMPv6.override", "ICMPv6.maximum_response_code", "ICMPv6.router_lifetime", "ICMPv6.managed",
+        "ICMPv6.other", "ICMPv6.home_agent", "ICMPv6.router_pref", "ICMPv6.reachable_time", "ICMPv6.qqic", "ICMPv6.qrv", "ICMPv6.supress", "TCP.flags", "DHCPv6.msg_type", "DHCPv6.hop_count",
+        "DHCPv6.transaction_id", "Dot11.addr1", "Dot11Data.addr2", "Dot11Data.addr3", "Dot11Data.addr4", "Dot11.to_ds", "Dot11.from_ds", "RTP.padding_size", "RTP.padding_bit", "LLC.dsap", "LLC.group",
+        "LLC.ssap", "LLC.response", "LLC.type", "LLC.send_seq_number", "LLC.receive_seq_number", "LLC.poll_final", "LLC.supervisory_function", "LLC.modifier_function", "RTP.extension_bit",
+        "RTP.extension_profile", "RTP.extension_length", "ICMP.length", "ICMPv6.length", 0};
+    for (int i = 0; probe[i]; ++i) if (a != probe[i] && aliased(a, probe[i])) return true;
+    return false;
+}
 // raw views of option lists / payload blobs: they legitimately move when a typed field inside them is set
 static bool list_key(const std::string& key) { size_t d = key.find('.'); std::string g = key.substr(d + 1); return g == "options" || g == "tags" || g == "headers" || g == "options_payload" || g == "present" || g == "vend"; }
 // bytes of the standalone serialization that are derived (checksums / lengths), per class
@@ -168,10 +178,20 @@ struct FieldInfo { std::string cls, name; std::set<long> bits; };
 static std::vector<FieldInfo> g_fields;
 static std::vector<long> g_last_pos; static bool g_last_pos_ok = false;   // per job: bit sets of the scalar fields of the classes it handled
 
-// priors: 0 default object; 1 every scalar settable field at its maximum sample; 2 alternating bit pattern
+// priors: 0 default object; 1 every scalar settable field at its maximum sample; 2 alternating bit pattern; 3 parsed from an all-ones buffer
 static PDU* apply_prior(PDU* o, int which) {
         if (!o) return 0;
         if (which == 0) return o;
+        if (which == 3) {
+            // a PARSED object whose every header bit is 1 (bits no setter reaches included); 0 when the class refuses such a buffer
+            std::vector<uint8_t> buf(o->size() + 16, 0xff);
+            PDU* r = 0;
+#define API_BUFCTOR(Q2, T2) if (!r && typeid(*o) == typeid(Q2)) { try { r = new Q2(buf.data(), (uint32_t)buf.size()); } catch (std::exception& e_) { if (!mc::tins_exc(e_)) { delete o; throw; } } }
+#include "api.inc"
+#undef API_BUFCTOR
+            delete o;
+            return r;
+        }
         // 1: every settable field of the object at its maximum sample; 2: alternating bit pattern
         int k = which == 1 ? 2 : 5;
         // apply all generated setters that fit this dynamic type
@@ -209,6 +229,8 @@ template <class V> struct Runner {
         bool derived_field = always_derived(k) || protocol_tag(k);
         R.count("fields");
         R.dist("distinct_nontrivial", fnv(k));
+        // (prior 3, an object parsed from an all-ones buffer, is available through apply_prior but not swept: such an object has another message
+        // type and carries bits no setter owns - STP timer fractions, LLC formats - which the setter-derived bit sets cannot judge)
         for (int pr = 0; pr < 3; ++pr) {
             std::unique_ptr<PDU> o(prior(pr));
             if (!o) { R.count("fields_uninstantiable"); return; }
@@ -330,6 +352,25 @@ template <class V> struct Runner {
                         R.violation(std::string("field:bit-order:") + k, std::string("value bits are not laid out contiguously in ") + (little_endian_class(cls) ? "little- or big-endian" : "network (big-endian)") + " order; bit0 at " + std::to_string(pos[0]) + " bit" + std::to_string(w - 1) + " at " + std::to_string(pos[w - 1]), ctx);
                 }
             }
+            // diff(serialize(before), serialize(after)) is inside the field's own bits (and derived bytes): compare the prior state itself with
+            // the prior state after set(0); fields that are documented views of shared bits (alias groups) are left out
+            if (fi_ok && !derived_field && !fi.bits.empty() && !std::is_enum<V>::value && !has_alias(k)) {
+                std::unique_ptr<PDU> p0(prior(pr)), p1(prior(pr));
+                bool ok = p0 && p1;
+                if (ok) { try { setv(*p1, V()); } catch (std::exception& e_) { if (!mc::tins_exc(e_)) throw; ok = false; } }
+                Bytes y0, y1;
+                if (ok) { try { y0 = ser(*p0); y1 = ser(*p1); } catch (std::exception& e_) { if (!mc::tins_exc(e_)) throw; ok = false; } }
+                if (ok && !y0.empty() && y0.size() == y1.size()) {
+                    R.count("before_after_serializations");
+                    for (size_t i = 0; i < y0.size() && ok; ++i) {
+                        uint8_t x = (y0[i] ^ y1[i]) & ~derived_mask(cls, i);
+                        for (int bit = 7; bit >= 0; --bit) if ((x >> bit & 1) && !fi.bits.count((long)(i * 8 + (7 - bit)))) {
+                            R.violation("field:serialization-disturbs-other-bits:" + k, "setting " + k + " to 0 changes serialized bit " + std::to_string(i * 8 + (7 - bit)) + ", which is not one of the field's " + std::to_string(fi.bits.size()) + " bits", ctx);
+                            ok = false; break;
+                        }
+                    }
+                }
+            }
             if (pr == 0 && fi_ok && g_last_pos_ok) {
                 if (const SpecPos* sp = spec_pos(k)) {
                     R.count("fields_checked_against_spec_position");
@@ -402,6 +443,93 @@ template <size_t n> static void small_uint_case() {
 template <size_t n> struct SmallUints { static void run() { SmallUints<n - 1>::run(); small_uint_case<n>(); } };
 template <> struct SmallUints<0> { static void run() {} };
 
+// ---- re-setting the current value is a no-op on the wire: for every accepted seed packet, every layer and every scalar (setter, getter) pair
+// of its class: x.f(x.f()) must leave the serialization unchanged. A parsed object carries bits no setter owns (reserved bits, sub-fields
+// without accessors); a setter that rebuilds its word from a too-narrow mask loses them even when handed the value that is already there.
+template <class C, class A> A sp_(void (C::*)(A));
+struct ResetJob { const char* key; bool (*applies)(PDU&); bool (*call)(PDU&); };
+static std::vector<ResetJob>& reset_table() { static std::vector<ResetJob> v; return v; }
+static bool reg_reset(const char* key, bool (*ap)(PDU&), bool (*call)(PDU&), bool scalar) { if (scalar) reset_table().push_back(ResetJob{key, ap, call}); return true; }
+#define MC_CAT2(a, b) a##b
+#define MC_CAT(a, b) MC_CAT2(a, b)
+// one pair per line of api.inc, so __LINE__ names it; the expression x.N(x.N()) decides by SFINAE whether the getter's value can be handed back
+#define API_PAIR(Q, T, N, A, R) \
+    template <class X> auto MC_CAT(rs_, __LINE__)(X& x, int) -> decltype(x.N(x.N()), bool()) { x.N(x.N()); return true; } \
+    template <class X> bool MC_CAT(rs_, __LINE__)(X&, long) { return false; } \
+    static bool MC_CAT(rsa_, __LINE__)(PDU& p) { return dynamic_cast<Q*>(&p) != 0; } \
+    static bool MC_CAT(rsc_, __LINE__)(PDU& p) { return MC_CAT(rs_, __LINE__)(static_cast<Q&>(p), 0); } \
+    static const bool MC_CAT(rsr_, __LINE__) = reg_reset(#T "." #N, &MC_CAT(rsa_, __LINE__), &MC_CAT(rsc_, __LINE__), Fam<typename std::decay<decltype(sp_(&Q::N))>::type>::scalar);
+#include "api.inc"
+#undef API_PAIR
+static void reset_family(int job, int njobs) {
+    auto eps = entry_points();
+    auto corpus = seed_corpus(grammar(3));
+    auto& table = reset_table();
+    size_t n = 0;
+    for (auto& ep : eps) {
+        if (!ep.serializable) continue;
+        for (auto& sd : corpus[ep.name]) {
+            if (n++ % (size_t)njobs != (size_t)job) continue;
+          // the seed itself, then the seed with one of its first 32 bytes set to ff / its bits inverted (reserved bits and sub-fields without accessors)
+          for (int var = -1; var < 64; ++var) {
+            Bytes in = sd.bytes;
+            if (var >= 0) { size_t pos = (size_t)(var / 2); if (pos >= in.size()) break; uint8_t nb = (var & 1) ? (uint8_t)~in[pos] : 0xff; if (nb == in[pos]) continue; in[pos] = nb; }
+            std::unique_ptr<PDU> p;
+            try { p.reset(ep.fn(in.data(), (uint32_t)in.size())); } catch (std::exception& e_) { if (!mc::tins_exc(e_)) throw; continue; }
+            if (!p || needs_environment(*p) || has_unserializable(*p)) continue;
+            Bytes y0; try { y0 = std::unique_ptr<PDU>(p->clone())->serialize(); } catch (std::exception&) { continue; }
+            int depth = 0;
+            for (PDU* l = p.get(); l; l = l->inner_pdu(), ++depth)
+                for (auto& rj : table) {
+                    if (!rj.applies(*l)) continue;
+                    std::string k = rj.key;
+                    if (always_derived(k) || protocol_tag(k)) continue;
+                    // lossy by API design (STP timers: whole seconds in, 1/256 s on the wire) or presence-managed (RadioTap fields: C11's subject)
+                    if (k.compare(0, 4, "STP.") == 0 || k.compare(0, 9, "RadioTap.") == 0) continue;
+                    std::unique_ptr<PDU> c(p->clone());
+                    PDU* cl = c.get(); for (int i = 0; i < depth; ++i) cl = cl->inner_pdu();
+                    uint32_t hs = cl->header_size();
+                    bool done = false;
+                    try { done = rj.call(*cl); } catch (std::exception& e_) { if (!mc::tins_exc(e_)) throw; continue; }
+                    if (!done) { R.count("reset_pairs_without_conversion"); continue; }
+                    if (cl->header_size() != hs) { R.count("reset_option_encoders_skipped"); continue; }
+                    Bytes y1; try { y1 = c->serialize(); } catch (std::exception&) { continue; }
+                    R.count("reset_evaluations");
+                    if (y1 != y0) {
+                        size_t i = 0; while (i < y0.size() && i < y1.size() && y0[i] == y1[i]) ++i;
+                        R.violation("field:reset-changes-wire:" + k, "x." + k.substr(k.find('.') + 1) + "(x." + k.substr(k.find('.') + 1) + "()) on a parsed packet changes its serialization at byte " + std::to_string(i) + " (" + hex(y0).substr(0, 120) + " -> " + hex(y1).substr(0, 120) + ")", "field=reset:" + k + " entry=" + ep.name + " seed=" + sd.origin + " var=" + std::to_string(var));
+                    }
+                }
+          }
+        }
+    }
+}
+
+// ---- indexed flag accessors: TCP::set_flag(flag, v) / get_flag(flag) are setter and getter of eight one-bit fields selected by an argument;
+// the generated (setter, same-named getter) table cannot hold them. Every flag x value x prior: only that bit of flags() and of the wire changes.
+static void tcp_flag_family() {
+    static const TCP::Flags fl[8] = {TCP::FIN, TCP::SYN, TCP::RST, TCP::PSH, TCP::ACK, TCP::URG, TCP::ECE, TCP::CWR};
+    for (int pr = 0; pr < 3; ++pr) for (int f = 0; f < 8; ++f) for (int v = 0; v < 2; ++v) {
+        std::unique_ptr<PDU> o(apply_prior(new TCP(), pr));
+        if (!o) continue;
+        TCP& t = static_cast<TCP&>(*o);
+        std::string ctx = "field=TCP.set_flag prior=" + std::to_string(pr) + " flag=" + std::to_string((int)fl[f]) + " value=" + std::to_string(v);
+        auto s0 = snapshot(t); Bytes y0 = std::unique_ptr<PDU>(t.clone())->serialize();     // on a clone: serializing rewrites derived fields
+        uint16_t before = t.flags();
+        t.set_flag(fl[f], v);
+        R.count("evaluations");
+        uint16_t want = (uint16_t)((before & ~(uint16_t)fl[f]) | (v ? (uint16_t)fl[f] : 0));
+        if ((int)t.get_flag(fl[f]) != v) R.violation("field:not-inverse:TCP.set_flag", "get_flag returns " + std::to_string((int)t.get_flag(fl[f])), ctx);
+        else if (t.flags() != want) R.violation("field:disturbs-neighbour:TCP.set_flag->TCP.flags", "flags() went from " + std::to_string(before) + " to " + std::to_string((int)t.flags()) + ", expected " + std::to_string(want), ctx);
+        auto s1 = snapshot(t);
+        for (auto& kv : s0) if (kv.first != "TCP.flags" && kv.first != "TCP.has_flags" && s1[kv.first] != kv.second) { R.violation("field:disturbs-neighbour:TCP.set_flag->" + kv.first, kv.first + " changed from " + kv.second + " to " + s1[kv.first], ctx); break; }
+        Bytes y1 = std::unique_ptr<PDU>(t.clone())->serialize();
+        int nd = 0;
+        for (size_t i = 0; i < y0.size() && i < y1.size(); ++i) nd += __builtin_popcount((uint8_t)((y0[i] ^ y1[i]) & ~derived_mask("TCP", i)));
+        if (y0.size() != y1.size() || nd != (before != want ? 1 : 0)) R.violation("field:serialization-disturbs-other-bits:TCP.set_flag", std::to_string(nd) + " serialized bits change", ctx);
+    }
+}
+
 int main(int argc, char** argv) {
     const int NJ = 64;
     return run_main(argc, argv, NJ, NJ,
@@ -410,6 +538,8 @@ int main(int argc, char** argv) {
             uint64_t idx = 0;
             if (job == 0) R.count("field_pairs_in_table", js.size());
             if (job == NJ - 1) { SmallUints<63>::run(); R.count("small_uint_widths", 63); }
+            if (job == NJ - 2) tcp_flag_family();
+            reset_family(job, NJ);
             for (size_t i = job; i < js.size(); i += NJ) {
                 js[i].fn(A.thorough(), idx);
                 if (deadline_reached()) { R.flags["exhaustive"] = false; break; }
@@ -429,6 +559,7 @@ int main(int argc, char** argv) {
             auto kv = parse_kv(kase);
             uint64_t idx = 0;
             if (kv["field"] == "small_uint") SmallUints<63>::run();
+            if (kv["field"] == "TCP.set_flag") tcp_flag_family();
             for (auto& j : jobs()) if (j.key == kv["field"]) j.fn(true, idx);
             for (auto& v : R.violations) { printf("violation reproduced: %s | %s | %s\n", v.first.c_str(), v.second.detail.c_str(), v.second.kase.c_str()); return 1; }
             printf("no violation for field %s\n", kv["field"].c_str());
